@@ -82,6 +82,7 @@ type PipeSpec struct {
 	TimeoutMs   int      `json:"timeout_ms"`
 	Footprint   bool     `json:"footprint"`
 	HTTPTimeout int      `json:"http_timeout"` // --http-timeout in seconds (0 = none)
+	TempInJob   bool     `json:"temp_in_job"` // --warc-temp-dir = the job directory itself (legal, unusual): nothing of the job may be deleted at stop
 	SlowPoint   string   `json:"slow_point"`   // every event at this hook point takes SlowMs longer (a slow disk, a slow queue: any schedule is allowed)
 	SlowMs      int      `json:"slow_ms"`
 	DiskLowMs   int      `json:"disk_low_ms"`  // after this many ms the job volume counts as full (--min-space-required raised): the real disk watcher pauses the pipeline at its next tick
@@ -231,6 +232,9 @@ func runPipeChild(specPath string) {
 	}
 	for _, s := range sp.InputSeeds {
 		c.InputSeeds = append(c.InputSeeds, strings.NewReplacer("{A}", hostA, "{B}", hostB).Replace(s))
+	}
+	if sp.TempInJob {
+		c.WARCTempDir = filepath.Join("jobs", sp.Job)
 	}
 	must(config.GenerateCrawlConfig())
 	must(os.MkdirAll(c.JobPath, 0o755))
